@@ -133,13 +133,21 @@ def Msa.rowText (m : Msa) (abc : Option Abc) (i : Nat) : Bytes :=
 
 def optAt (o : OptRows) (i : Nat) : Option Bytes := (o.getD []).getD i none
 
-/-- `esl_msafile_afa_Write` -/
+/-- the name/description line of record `i`: `>name[ acc][ desc]` -/
+def afaHeader (m : Msa) (i : Nat) : Bytes :=
+  [62] ++ m.names.getD i []
+    ++ (match optAt m.sqacc i with | some a => 32 :: a | none => [])
+    ++ (match optAt m.sqdesc i with | some d => 32 :: d | none => [])
+
+/-- the lines `esl_msafile_afa_Write` prints for record `i`: header, then the row in pieces of 60 columns -/
+def afaRecLines (abc : Option Abc) (m : Msa) (i : Nat) : List Bytes :=
+  afaHeader m i :: chunks60 ((m.rowText abc i).take m.alen)
+
+def afaWriteLines (abc : Option Abc) (m : Msa) : List Bytes :=
+  (List.range m.nseq).flatMap (afaRecLines abc m)
+
+/-- `esl_msafile_afa_Write`: every line is terminated by a single LF -/
 def afaWrite (abc : Option Abc) (m : Msa) : Bytes :=
-  (List.range m.nseq).flatMap fun i =>
-    [62] ++ m.names.getD i []
-      ++ (match optAt m.sqacc i with | some a => 32 :: a | none => [])
-      ++ (match optAt m.sqdesc i with | some d => 32 :: d | none => [])
-      ++ [10]
-      ++ (chunks60 ((m.rowText abc i).take m.alen)).flatMap (fun c => c ++ [10])
+  (afaWriteLines abc m).flatMap (· ++ [10])
 
 end EaselModel.Msafile
